@@ -120,6 +120,15 @@ def missing_captures(run, ob, saved):
             have = sum(1 for k in keys if k.startswith("output: %s #" % al) and k.endswith(suffix))
             if have < n:
                 return "output alias %r was called %d times, the saved recording holds %d '%s' entries" % (al, n, have, suffix)
+    import re
+    ords = {}
+    for k in keys:
+        m = re.match(r"^output: (.*) #(\d+)\.output$", k)
+        if m:
+            ords.setdefault(m.group(1), set()).add(int(m.group(2)))
+    for al, st in ords.items():
+        if st != set(range(1, len(st) + 1)):
+            return "the output entries of alias %r are numbered %s instead of 1..%d" % (al, sorted(st), len(st))
     if any(kind == "in" for kind, _ in calls) and not any(k.startswith("input: ") for k in keys):
         return "intercepted inputs completed but the saved recording holds no input entry"
     return None
